@@ -124,6 +124,21 @@ def judge(w, members, tname):
     uni = Universe(vertices=[w.v[i] for i in members])
     mem = [w.v[i] for i in members]
     table = options(tname)
+    if tname == "T2" and members:
+        # two renderings that are rejected first (a title format naming an attribute the VB vertices lack:
+        # KeyError part-way through the vertices; an option table without any link class: ValueError after
+        # all vertices) -- a failed rendering must not spoil the valid one that follows
+        for broken in (
+            {Vertex: {"type": "object", "show_attrs": ["^i$"], "title_format": "p{i}"},
+             VB: {"type": "object", "show_attrs": ["^i$"], "title_format": "q{nosuch}"},
+             DirectedEdge: {"v1side": "", "v2side": ">"}, UnDirectedEdge: {"v1side": "", "v2side": ""},
+             TwoEndedLink: {"v1side": "", "v2side": ""}},
+            {Vertex: {"type": "object", "show_attrs": ["^i$"], "title_format": "r{i}"}},
+        ):
+            try:
+                plantuml.render_to_plantuml_src(uni, broken)
+            except Exception:  # noqa: BLE001
+                pass
     del USER_CALLS[:]
     try:
         out = plantuml.render_to_plantuml_src(uni, options(tname))
